@@ -676,6 +676,29 @@ impl<'a> Read for FlakyReader<'a> {
     }
 }
 
+/// A source that serves `data` in reads of at most `q` bytes and fails ONCE, at read index `at`, with a hard I/O
+/// error (a medium that hiccups); the read after it continues where the stream stood.
+pub struct ErrOnceReader<'a> {
+    pub data: &'a [u8],
+    pub pos: usize,
+    pub q: usize,
+    pub calls: usize,
+    pub at: usize,
+}
+impl<'a> Read for ErrOnceReader<'a> {
+    fn read(&mut self, buf: &mut [u8]) -> std::io::Result<usize> {
+        let c = self.calls;
+        self.calls += 1;
+        if c == self.at {
+            return Err(std::io::Error::new(std::io::ErrorKind::Other, "medium error"));
+        }
+        let k = self.q.max(1).min(buf.len()).min(self.data.len() - self.pos);
+        buf[..k].copy_from_slice(&self.data[self.pos..self.pos + k]);
+        self.pos += k;
+        Ok(k)
+    }
+}
+
 /// C02 over unusual but legal SOURCES and ARCHIVES:
 ///  (a) prefixes delivered by a source that splits reads and reports interruptions (the repair result
 ///      must still be sound: names of the original, contents prefixes, complete unless unfinished,
